@@ -329,8 +329,7 @@ Proof.
 Qed.
 
 (* ---- the persister after a plain send_process --------------------------------------------------------------------- *)
-Definition ptr_of (now : Z) (s : sess) (m : msg) : bytes :=
-  if m_eob m then match s_batch s with [] => wire sc now s m | _ => [] end else wire sc now s m.
+Definition ptr_of (now : Z) (s : sess) (m : msg) : bytes := wire sc now s m.
 
 Lemma send_per : forall now s m, plain_msg m = true -> s_closed s = false ->
   s_per (snd (fst (send_process sc now s m))) = per_after sc s m (ptr_of now s m).
@@ -380,11 +379,9 @@ Record good (s : sess) : Prop := {
 Lemma nz_sess_frame : forall s s', frame s s' -> nz_sess s = true -> nz_sess s' = true.
 Proof. unfold frame, nz_sess. intros s s' (_&A&B&_) H. rewrite A, B. exact H. Qed.
 
-(* one plain17 message; `stores` says whether what is handed to the persister is the wire form:
-   not the flushing message of a non-empty batch buffer *)
+(* one plain17 message, in any position of a batch or alone *)
 Lemma step17 : forall now s m (pend : list msg) infos adds n0,
   plain17 m = true -> good s -> s_batch s = concat (map (encode sc) pend) ->
-  (m_eob m = true -> pend <> [] -> session_type (m_type m) = true) ->
   sentrel n0 infos adds -> s_next_send s = n0 + N.of_nat (length infos) ->
   exists s' evs,
     send_process sc now s m = (true, s', evs) /\ frame s s' /\ good s' /\
@@ -398,17 +395,14 @@ Lemma step17 : forall now s m (pend : list msg) infos adds n0,
      then s_batch s' = [] /\ evs = map EOut (map (encode sc) (pend ++ [filled sc now s m]))
      else s_batch s' = concat (map (encode sc) (pend ++ [filled sc now s m])) /\ evs = []).
 Proof.
-  intros now s m pend infos adds n0 P G B LAST SR NS.
+  intros now s m pend infos adds n0 P G B SR NS.
   destruct (plain17_fields m P) as (Pm & Nt & Vh & Vb & AD).
   destruct G as [C W NZ SO BE PO].
   destruct (plain_step sc WS now s m pend Pm C W B) as (s' & evs & E & FR & NS' & _ & FL).
   pose proof (send_per now s m Pm C) as SP. rewrite E in SP. cbn [fst snd] in SP.
   assert (WN : nonul (wire sc now s m) = true) by (apply encode_nonul, filled_nz; assumption).
   assert (PT : session_type (m_type m) = false -> cstr (ptr_of now s m) = wire sc now s m).
-  { intro NA. unfold ptr_of. destruct (m_eob m) eqn:EB; [|apply cstr_nonul; exact WN].
-    destruct (s_batch s) eqn:BB; [apply cstr_nonul; exact WN|].
-    assert (PN : pend <> []) by (intro Z; subst pend; cbn in B; discriminate).
-    rewrite (LAST eq_refl PN) in NA. discriminate. }
+  { intros _. unfold ptr_of. apply cstr_nonul. exact WN. }
   assert (ST1 : p_attached (s_per s) = true ->
      p_store (s_per s') = (p_store (s_per s) ++ if session_type (m_type m) then [] else [(s_next_send s, wire sc now s m)])%list).
   { intro A. rewrite SP. rewrite per_after_store by assumption. rewrite AD.
@@ -435,11 +429,8 @@ Proof.
   repeat split; assumption.
 Qed.
 
-Definition last_type_ok (l : list msg) : Prop :=
-  forall m0, session_type (m_type (last l m0)) = true.
-
 Lemma loop17 : forall now l s pend infos adds n0 cnt evs0,
-  Forall (fun m => plain17 m = true) l -> l <> [] -> last_type_ok l ->
+  Forall (fun m => plain17 m = true) l -> l <> [] ->
   good s -> s_batch s = concat (map (encode sc) pend) ->
   sentrel n0 infos adds -> map (fun x : info => snd x) infos = map (encode sc) pend ->
   s_next_send s = n0 + N.of_nat (length infos) ->
@@ -450,7 +441,7 @@ Lemma loop17 : forall now l s pend infos adds n0 cnt evs0,
     (p_attached (s_per s) = true -> p_store (s_per s') = (p_store (s_per s) ++ newadds)%list) /\
     (p_attached (s_per s) = false -> p_store (s_per s') = p_store (s_per s)).
 Proof.
-  induction l as [|m l IH]; intros s pend infos adds n0 cnt evs0 FP NE LT G B SR MS NS; [contradiction|].
+  induction l as [|m l IH]; intros s pend infos adds n0 cnt evs0 FP NE G B SR MS NS; [contradiction|].
   inversion FP as [|? ? Pm FP']; subst.
   cbn [send_batch_loop].
   destruct l as [|m' l'].
@@ -458,7 +449,6 @@ Proof.
     assert (P1 : plain17 (set_eob true m) = true) by exact Pm.
     destruct (step17 now s (set_eob true m) pend infos adds n0 P1 G B) as
       (s' & evs & E & FR & G' & SR' & NS' & ST1 & ST0 & FL); try assumption.
-    { intros _ _. cbn [set_eob m_type]. apply (LT m). }
     cbn [m_eob set_eob] in FL. destruct FL as [B' EV].
     rewrite E. cbn [send_batch_loop length].
     exists s', (infos ++ [(session_type (m_type (set_eob true m)), s_next_send s, wire sc now s (set_eob true m))])%list,
@@ -470,20 +460,17 @@ Proof.
     assert (P1 : plain17 (set_eob false m) = true) by exact Pm.
     destruct (step17 now s (set_eob false m) pend infos adds n0 P1 G B) as
       (s1 & evs & E & FR & G1 & SR1 & NS1 & ST1 & ST0 & FL); try assumption.
-    { intro Z. cbn in Z. discriminate. }
     cbn [m_eob set_eob] in FL. destruct FL as [B1 EV]. subst evs.
     rewrite E. rewrite app_nil_r.
     set (x1 := (session_type (m_type (set_eob false m)), s_next_send s, wire sc now s (set_eob false m))) in *.
     set (na1 := if session_type (m_type (set_eob false m)) then [] else [(s_next_send s, wire sc now s (set_eob false m))]) in *.
     assert (H1 : m' :: l' <> []) by discriminate.
-    assert (H2 : last_type_ok (m' :: l')).
-    { intro m0. specialize (LT m0). cbn [last] in LT. cbn [last]. exact LT. }
     assert (H3 : map (fun x : info => snd x) (infos ++ [x1]) = map (encode sc) (pend ++ [filled sc now s (set_eob false m)])).
     { rewrite !map_app. cbn [map]. rewrite MS. reflexivity. }
     assert (H4 : s_next_send s1 = n0 + N.of_nat (length (infos ++ [x1]))).
     { rewrite app_length. cbn [length]. rewrite NS1, NS. lia. }
     destruct (IH s1 (pend ++ [filled sc now s (set_eob false m)])%list (infos ++ [x1])%list (adds ++ na1)%list n0 (cnt + 1) evs0
-                 FP' H1 H2 G1 B1 SR1 H3 H4)
+                 FP' H1 G1 B1 SR1 H3 H4)
       as (s' & infos' & newadds & EL & FR' & G' & B' & SR' & ST1' & ST0').
     destruct FR as (F1 & F2 & F3 & F4 & F5).
       exists s', infos', (na1 ++ newadds)%list. split; [|split; [|split; [|split; [|split; [|split]]]]].
@@ -588,16 +575,10 @@ Proof.
 Qed.
 
 (* ---- histories --------------------------------------------------------------------------------------------------------- *)
-Definition batch17 (l : list msgspec) : bool :=
-  match l with
-  | [] | [_] => true
-  | _ => session_type (ms_type (last l (mkSpec [] [] [] 0 false true)))
-  end.
-
 Definition plain_op17 (o : op) : bool :=
   match o with
   | OSend sp => plain_spec17 sp
-  | OBatch l => forallb plain_spec17 l && batch17 l
+  | OBatch l => forallb plain_spec17 l
   | OClock _ => true
   | _ => false
   end.
@@ -735,13 +716,12 @@ Proof.
     destruct (build_plain17 m msg P BM) as (Pm & EB & _).
     destruct (plain_spec_fields m (plain_spec17_fields m P)) as (Hc & Hn & _).
     unfold send. rewrite Hc, Hn. cbn [N.eqb].
-    destruct (step17 (w_now w) s msg [] [] [] (s_next_send s) Pm G B0 (fun _ Z => False_ind _ (Z eq_refl)) SR0 NS0) as
+    destruct (step17 (w_now w) s msg [] [] [] (s_next_send s) Pm G B0 SR0 NS0) as
       (s' & evs & ES & FR & G' & SR & NS & ST1 & ST0 & FL).
     rewrite EB in FL. destruct FL as [B' EV]. rewrite ES. cbn [fst snd]. subst evs. cbn [app map] in *.
     apply (after_op w pk s s' [(session_type (m_type msg), s_next_send s, wire sc (w_now w) s msg)]
              (if session_type (m_type msg) then [] else [(s_next_send s, wire sc (w_now w) s msg)]) [ERet 1%Z]); assumption || reflexivity.
   - (* BATCH *)
-    apply andb_true_iff in P. destruct P as [P BT].
     cbn [run_op]. rewrite E.
     destruct (specs_ok l) eqn:OK; cbn [negb]; [|cbn [fst snd]; apply quiet17; [exact I|reflexivity]].
     destruct (build_all sc l) as [ms|] eqn:BA; [|cbn [fst snd]; apply quiet17; [exact I|reflexivity]].
@@ -749,18 +729,14 @@ Proof.
     destruct ms as [|m1 [|m2 ms']].
     + cbn [send_batch fst snd app]. rewrite (with_sess_same w s E). apply quiet17; [exact I|reflexivity].
     + cbn [send_batch]. pose proof (Forall_inv FP) as Pm. cbn beta in Pm.
-      destruct (step17 (w_now w) s m1 [] [] [] (s_next_send s) Pm G B0 (fun _ Z => False_ind _ (Z eq_refl)) SR0 NS0) as
+      destruct (step17 (w_now w) s m1 [] [] [] (s_next_send s) Pm G B0 SR0 NS0) as
         (s' & evs & ES & FR & G' & SR & NS & ST1 & ST0 & FL).
       rewrite (EB1 m1 eq_refl) in FL. destruct FL as [B' EV]. rewrite ES. cbn [fst snd]. subst evs. cbn [app map] in *.
       apply (after_op w pk s s' [(session_type (m_type m1), s_next_send s, wire sc (w_now w) s m1)]
                (if session_type (m_type m1) then [] else [(s_next_send s, wire sc (w_now w) s m1)]) [ERet (Z.of_N 1)]); assumption || reflexivity.
     + cbn [send_batch].
-      assert (LT : last_type_ok (m1 :: m2 :: ms')).
-      { intro m0. destruct l as [|sp1 [|sp2 l']]; try discriminate.
-        rewrite (last_types (m1 :: m2 :: ms') (sp1 :: sp2 :: l') m0 (mkSpec [] [] [] 0 false true) TYS) by discriminate.
-        exact BT. }
       assert (NE : m1 :: m2 :: ms' <> []) by discriminate.
-      destruct (loop17 (w_now w) (m1 :: m2 :: ms') s [] [] [] (s_next_send s) 0 [] FP NE LT G B0 SR0 eq_refl NS0) as
+      destruct (loop17 (w_now w) (m1 :: m2 :: ms') s [] [] [] (s_next_send s) 0 [] FP NE G B0 SR0 eq_refl NS0) as
         (s' & infos' & newadds & EL & FR & G' & B' & SR & ST1 & ST0).
       rewrite EL. cbn [fst snd app].
       apply (after_op w pk s s' infos' newadds [ERet (Z.of_N (0 + N.of_nat (length (m1 :: m2 :: ms'))))]); assumption || reflexivity.
@@ -843,7 +819,7 @@ Proof.
     assert (B0 : s_batch s2 = concat (map (encode sc) [])) by (rewrite B2; reflexivity).
     assert (SR0 : sentrel (s_next_send s2) [] []) by constructor.
     assert (NS0 : s_next_send s2 = s_next_send s2 + N.of_nat (length (@nil info))) by (cbn; lia).
-    destruct (step17 now s2 _ [] [] [] (s_next_send s2) PL G2 B0 (fun _ Z => False_ind _ (Z eq_refl)) SR0 NS0) as
+    destruct (step17 now s2 _ [] [] [] (s_next_send s2) PL G2 B0 SR0 NS0) as
       (s3 & evs & ES & FR & G3 & SR & NS & ST1 & ST0 & FL).
     rewrite EB in FL. destruct FL as [B3 EV]. rewrite ES. cbn [fst snd]. subst evs. cbn [app map] in *.
     set (w0 := mkWorld (Some s2) now p (p_empty PFile) []).
@@ -892,19 +868,19 @@ Qed.
 
 End P17.
 
-(* one send_process call, as a statement of its own: unless it is the flushing message of a non-empty
-   batch buffer, a plain application message is stored under next_send with exactly its wire bytes,
-   an administrative one is not stored *)
+(* one send_process call, as a statement of its own, for every state between operations or inside a
+   batch and every position (the flushing message of a non-empty batch buffer included): a plain
+   application message is stored under next_send with exactly its wire bytes, an administrative one
+   is not stored *)
 Lemma c17_store_step_lemma : forall sc now s m pend,
   wf_schema sc = true -> nonul (sc_begin sc) = true ->
   plain17 sc m = true -> good s -> s_batch s = concat (map (encode sc) pend) ->
-  (m_eob m = true -> pend <> [] -> session_type (m_type m) = true) ->
   p_attached (s_per s) = true ->
   p_store (s_per (snd (fst (send_process sc now s m)))) =
   (p_store (s_per s) ++ if session_type (m_type m) then [] else [(s_next_send s, wire sc now s m)])%list.
 Proof.
-  intros sc now s m pend WS NB P G B L A.
-  destruct (step17 sc WS NB now s m pend [] [] (s_next_send s) P G B L (sr_nil _)) as
+  intros sc now s m pend WS NB P G B A.
+  destruct (step17 sc WS NB now s m pend [] [] (s_next_send s) P G B (sr_nil _)) as
     (s' & evs & E & _ & _ & _ & _ & ST1 & _); [cbn; lia|].
   rewrite E. cbn [fst snd]. apply ST1. exact A.
 Qed.
@@ -924,14 +900,22 @@ Definition store_lengths (tr : trace) : list (N * option nat) :=
   | None => []
   end.
 
-(* F21: the last message of a batch is persisted from the batch buffer after it has been cleared *)
-Definition h_batch2 : list op := [OStart (demo_init PFile) None; OBatch [demo_order [65]; demo_order [66]]].
+(* F21 (repaired in /repo by d862447): the ORIGINAL send_process handed `ptr` to the persister, which
+   points into the batch buffer -- already cleared -- for the message that flushes a non-empty buffer:
+   the last message of a batch was stored as the EMPTY string.  The code as it is stores the wire bytes. *)
+Definition sb1 : sess := snd (fst (send_process demo_schema T0 st0 (set_eob false m_order))).
+Definition last_stored (r : bool * sess * list event) : option nat :=
+  match p_get (s_per (snd (fst r))) 3 with Some v => Some (length v) | None => None end.
 
-Lemma c17_store_refuted_lemma :
-  all_new_seqs (run_history demo_schema h_batch2) = map dec [1; 2; 3] /\
-  store_lengths (run_history demo_schema h_batch2) = [(2, Some 83%nat); (3, Some 0%nat)] /\
-  c17_ok h_batch2 (run_history demo_schema h_batch2) = false.
-Proof. vm_compute. repeat split. Qed.
+Lemma c17_store_orig_refuted_lemma :
+  s_next_send sb1 = 3 /\ s_batch sb1 <> [] /\
+  last_stored (send_process_orig demo_schema T0 sb1 m_order) = Some 0%nat /\
+  last_stored (send_process demo_schema T0 sb1 m_order) = Some 81%nat /\
+  length (wire demo_schema T0 sb1 m_order) = 81%nat.
+Proof. vm_compute. repeat split. discriminate. Qed.
+
+(* a batch of two application messages now satisfies the oracle *)
+Definition h_batch2 : list op := [OStart (demo_init PFile) None; OBatch [demo_order [65]; demo_order [66]]].
 
 (* a custom sequence number: the message is stored under next_send, not under its own MsgSeqNum *)
 Definition h_custom17 : list op :=
@@ -945,14 +929,15 @@ Proof. vm_compute. repeat split. Qed.
 
 (* non-vacuity: singles, a batch ending with an administrative message, admin sends *)
 Definition h_plain17 : list op :=
-  [OSend (demo_order [65]); OBatch [demo_order [66]; demo_order [67]; demo_admin [48]];
-   OSend (demo_admin [49]); OBatch [demo_order [68]]; OSend (demo_order [69])].
+  [OSend (demo_order [65]); OBatch [demo_order [66]; demo_admin [48]; demo_order [67]];
+   OSend (demo_admin [49]); OBatch [demo_order [68]]; OBatch [demo_order [69]; demo_order [70]]].
 
 Definition stored_keys (tr : trace) : list N := flat_map (fun st => match st_snap st with Some sn => map fst (sn_store sn) | None => [] end) tr.
 
 Lemma c17_nonvacuous_lemma :
   wf_schema demo_schema = true /\ nonul (sc_begin demo_schema) = true /\ wf_admin demo_schema = true /\
   wf_start17 (demo_init PFile) = true /\ forallb plain_op17 h_plain17 = true /\
-  all_new_seqs (run_history demo_schema (OStart (demo_init PFile) None :: h_plain17)) = map dec [1; 2; 3; 4; 5; 6; 7; 8] /\
-  stored_keys (run_history demo_schema (OStart (demo_init PFile) None :: h_plain17)) = [2; 3; 4; 7; 8].
+  all_new_seqs (run_history demo_schema (OStart (demo_init PFile) None :: h_plain17)) = map dec [1; 2; 3; 4; 5; 6; 7; 8; 9] /\
+  stored_keys (run_history demo_schema (OStart (demo_init PFile) None :: h_plain17)) = [2; 3; 5; 7; 8; 9] /\
+  c17_ok h_batch2 (run_history demo_schema h_batch2) = true.
 Proof. vm_compute. repeat split. Qed.
